@@ -128,7 +128,9 @@ pub fn build(mode: Mode, hist: &[Txn], txn: &Txn) -> Case {
         }
         Mode::Include => {
             let h = rl::render("", hist, &|_, _, a| a.to_string());
-            let t = rl::render("; main file\ninclude sub/hist.ledger\n\n", std::slice::from_ref(txn), &|_, _, a| a.to_string());
+            // (multi-byte text before the judged transaction: a line count taken in characters instead of bytes, or the
+            // other way round, puts the diagnostic on the wrong line)
+            let t = rl::render("; main file \u{65e5}\u{672c}\u{8a9e}\u{306e}\u{30b3}\u{30e1}\u{30f3}\u{30c8} \u{e9}\u{e9}\u{e9} \u{1f600}\u{1f600}\n; \u{4e8c}\u{884c}\u{76ee}\u{3001}\u{4e09}\u{884c}\u{76ee}\u{3001}\u{56db}\u{884c}\u{76ee}\u{3001}\u{4e94}\u{884c}\u{76ee}\ninclude sub/hist.ledger\n\n", std::slice::from_ref(txn), &|_, _, a| a.to_string());
             let (f, l) = t.txn_lines[0];
             let desc = format!("== {} ==\n{}== /v/sub/hist.ledger ==\n{}", oka::ROOT, t.text, h.text);
             Case { desc, files: vec![(root, t.text), ("/v/sub/hist.ledger".to_string(), h.text)], txn_first: f, txn_last: l, posting_lines: t.posting_lines[0].clone(), hist_has_assert_after_omitted }
